@@ -19,6 +19,8 @@ def build(np, rng, cfg):
     md = rng.uniform(0.5, 2.0, n)
     w = rng.uniform(20.0, 200.0, nel)
     z = rng.choice([0.01, 0.05, 0.3], nel)
+    if cfg.get("damp") == "mixed":
+        z = np.array([0.05, 1.7])[:nel]                 # under- and over-damped side by side
     kd = np.zeros(n, complex if cfg["cplxk"] else float)
     bd = np.zeros(n)
     el = np.arange(nrb, nrb + nel)
@@ -86,6 +88,10 @@ def body(run: Run, replay):
         n = s["n"]
         fres = s["wres"] / 2 / np.pi
         freq = np.array(([0.0] if zero_ok else []) + [0.3 * fres, fres, 2.7 * fres, 11.0 * fres])
+        if cfg["forder"] == "zerolast":
+            freq = freq[::-1].copy()
+        elif cfg["forder"] == "shuffled":
+            freq = freq[rng.permutation(len(freq))]
         Fm = (rng.standard_normal((n, len(freq))) + 1j * rng.standard_normal((n, len(freq))))     # modal forces
         Fp = s["T"].T @ (Fm * s["scale"][:, None])     # mass None: equations divided by the modal mass
         if cfg["intform"]:
@@ -96,7 +102,7 @@ def body(run: Run, replay):
         run.case(json.dumps(cfg, sort_keys=True), part=cfg["solver"] + "/" + cfg["coupling"])
         try:
             if cfg["solver"] == "SolveUnc":
-                ts = ode.SolveUnc(s["marg"], s["barg"], s["karg"], rf=(s["rf"] if len(s["rf"]) else None), pre_eig=cfg["pre_eig"],
+                ts = ode.SolveUnc(s["marg"], s["barg"], s["karg"], (0.002 if cfg["hgiven"] else None), rf=(s["rf"] if len(s["rf"]) else None), pre_eig=cfg["pre_eig"],
                                   rb=(list(range(len(s["rb"]))) if (ci % 3 == 0 and len(s["rb"])) else None))
             else:
                 ts = ode.FreqDirect(s["marg"], s["barg"], s["karg"], rf=(s["rf"] if len(s["rf"]) else None))
